@@ -163,3 +163,20 @@ Fixpoint trace (deep : bool) (s : st) (ops : list op) : list out :=
   end.
 
 Definition c20_store (deep : bool) (ops : list op) : out := OList (trace deep init ops).
+
+(* ---- correspondence with QUIET steps: after an operation flagged [true] the harness does not call
+   Index(), so the caller's own next Index() is the one that meets the cache as that operation left
+   it — in particular the first Index() after an external rewrite is a cache MISS (decode, cache.Set,
+   return copyIndex) whose result the following operations hold and modify.  With all flags false
+   this is [trace] (Proofs/C20.v: trace_q_all_loud). ---- *)
+Fixpoint trace_q (deep : bool) (s : st) (ops : list (bool * op)) : list out :=
+  match ops with
+  | [] => []
+  | (q, o) :: r =>
+    let s1 := step deep s o in
+    if q then OSym "quiet" :: trace_q deep s1 r
+    else let '(v, s2) := read_now deep s1 in
+         OList [vals_out v; vals_out (disk_content s2)] :: trace_q deep s2 r
+  end.
+
+Definition c20_store_q (deep : bool) (ops : list (bool * op)) : out := OList (trace_q deep init ops).
